@@ -1,7 +1,9 @@
 package rules
 
 import (
+	"go/token"
 	"go/types"
+	"strconv"
 	"sort"
 	"strings"
 
@@ -352,3 +354,177 @@ func countBefore(fn *ssa.Function, at ssa.Instruction, cal *ssa.Function) int {
 	}
 	return k
 }
+
+// ---------------------------------------------------------------------------
+// theOSGivenToTheVMComesFirst: the function that decides which OS an
+// evaluation runs under looks at the OS the host gave this VM (WithOS) before
+// it looks into the context.  Every VM installs its OS (the real one, by
+// default) in the context it hands to builtins; a builtin that starts an
+// evaluation of its own under a host-supplied OS passes that context on, and
+// if the context wins the sandboxed evaluation runs against the outer OS.
+func theOSGivenToTheVMComesFirst(c *core.Ctx) {
+	p := c.P
+	vmT := vmType(p)
+	oi := fieldIdxByName(vmT, "os")
+	if oi < 0 {
+		core.Undecidedf("VirtualMachine.os not found")
+	}
+	n := 0
+	for _, fn := range repoFns(p, "vm") {
+		var getOS ssa.Instruction
+		var fieldTest *ssa.If
+		for _, b := range fn.Blocks {
+			for _, in := range b.Instrs {
+				if call, ok := in.(*ssa.Call); ok {
+					if cal := call.Call.StaticCallee(); cal != nil && cal.Name() == "GetOS" && cal.Pkg != nil && core.RelPkg(cal.Pkg.Pkg) == "os" {
+						getOS = in
+					}
+				}
+				if iff, ok := in.(*ssa.If); ok {
+					if bo, ok := iff.Cond.(*ssa.BinOp); ok {
+						for _, pair := range [][2]ssa.Value{{bo.X, bo.Y}, {bo.Y, bo.X}} {
+							if _, ok := loadOfField(pair[0], vmT, oi); ok && isNilValue(pair[1]) {
+								fieldTest = iff
+							}
+						}
+					}
+				}
+			}
+		}
+		if getOS == nil || fieldTest == nil {
+			continue
+		}
+		n++
+		first := fieldTest.Block().Dominates(getOS.Block()) && fieldTest.Block() != getOS.Block()
+		c.Check(first, core.SSAName(fn)+"|own-os-before-context-os", p.Pos(getOS.Pos()),
+			core.SSAName(fn)+" chooses between the OS given to the VM and the one carried by the context"+ife(first, ", looking at the VM's own first", ", and asks the context first: an evaluation started by a builtin under a host-supplied OS (WithOS) is handed the calling VM's context, which carries that VM's OS, and runs against it instead"))
+	}
+	if n == 0 {
+		core.Undecidedf("no function of package vm chooses between VirtualMachine.os and the context's OS")
+	}
+	c.Stat("os_choices", n)
+}
+
+// ---------------------------------------------------------------------------
+// mountsHandTheirSourceARootedPath: the function that picks the mount for a
+// path hands the mount's source the rest of the path from the source's root:
+// every string it returns together with a mount begins with a slash (it is a
+// constant that does, a concatenation that begins with one, or a value that a
+// strings.HasPrefix(v, "/") test has passed).  What is left after trimming the
+// mount point "/" is relative, and a local file system resolves a relative
+// path against the working directory of the process.
+func mountsHandTheirSourceARootedPath(c *core.Ctx) {
+	p := c.P
+	n := 0
+	for _, fn := range repoFns(p, "os") {
+		res := fn.Signature.Results()
+		if res.Len() != 3 || fn.Parent() != nil {
+			continue
+		}
+		if pt, ok := res.At(0).Type().(*types.Pointer); !ok || core.NamedOf(pt) == nil || core.NamedOf(pt).Obj().Name() != "Mount" {
+			continue
+		}
+		if b, ok := res.At(1).Type().Underlying().(*types.Basic); !ok || b.Kind() != types.String {
+			continue
+		}
+		for _, b := range fn.Blocks {
+			for _, in := range b.Instrs {
+				r, ok := in.(*ssa.Return)
+				if !ok || len(r.Results) != 3 {
+					continue
+				}
+				if k, ok := r.Results[2].(*ssa.Const); !ok || k.Value == nil || k.Value.String() != "true" {
+					continue
+				}
+				n++
+				bad := ""
+				var visit func(v ssa.Value, from, to *ssa.BasicBlock, d int)
+				visit = func(v ssa.Value, from, to *ssa.BasicBlock, d int) {
+					if d > 6 {
+						bad = "too deep"
+						return
+					}
+					switch x := v.(type) {
+					case *ssa.Const:
+						if x.Value == nil || !strings.HasPrefix(constStringVal(x), "/") {
+							bad = "the constant " + x.String()
+						}
+					case *ssa.BinOp:
+						if k, ok := x.X.(*ssa.Const); ok && x.Op == token.ADD && strings.HasPrefix(constStringVal(k), "/") {
+							return
+						}
+						bad = "a concatenation that does not begin with a slash"
+					case *ssa.Phi:
+						for i, e := range x.Edges {
+							visit(e, x.Block().Preds[i], x.Block(), d+1)
+						}
+					default:
+						// a value that passed strings.HasPrefix(v, "/") on the way to `from`
+						ok := false
+						for _, b2 := range fn.Blocks {
+							if len(b2.Instrs) == 0 {
+								continue
+							}
+							iff, isIf := b2.Instrs[len(b2.Instrs)-1].(*ssa.If)
+							if !isIf {
+								continue
+							}
+							call, isCall := iff.Cond.(*ssa.Call)
+							neg := false
+							if u, isU := iff.Cond.(*ssa.UnOp); isU && u.Op == token.NOT {
+								call, isCall = u.X.(*ssa.Call)
+								neg = true
+							}
+							if !isCall {
+								continue
+							}
+							cal := call.Call.StaticCallee()
+							if cal == nil || cal.Pkg == nil || cal.Pkg.Pkg.Path() != "strings" || cal.Name() != "HasPrefix" || len(call.Call.Args) != 2 || call.Call.Args[0] != v {
+								continue
+							}
+							if k, isK := call.Call.Args[1].(*ssa.Const); !isK || constStringVal(k) != "/" {
+								continue
+							}
+							t := b2.Succs[0]
+							if neg {
+								t = b2.Succs[1]
+							}
+							if from != nil && (t == from || t.Dominates(from)) {
+								ok = true
+							}
+							// the edge itself is the passing branch of the test
+							if from == b2 && to == t {
+								ok = true
+							}
+						}
+						if !ok {
+							bad = "a value that no strings.HasPrefix(v, \"/\") test has passed"
+						}
+					}
+				}
+				visit(r.Results[1], b, b, 0)
+				c.Check(bad == "", core.SSAName(fn)+"|source-path-is-rooted|"+sprintf("%d", n), p.Pos(r.Pos()),
+					core.SSAName(fn)+" returns a mount together with the path for its source"+ife(bad == "", ", which begins with a slash on every path", ", which may be "+bad+": trimming the mount point \"/\" leaves a relative path, and a local file system resolves that against the working directory of the process"))
+			}
+		}
+	}
+	if n == 0 {
+		core.Undecidedf("no function of package os returns a mount together with a path")
+	}
+	c.Stat("mount_resolutions", n)
+}
+
+func constStringVal(k *ssa.Const) string {
+	if k == nil || k.Value == nil {
+		return ""
+	}
+	s := k.Value.ExactString()
+	if len(s) >= 2 && s[0] == '"' {
+		if u, err := strconvUnquote(s); err == nil {
+			return u
+		}
+	}
+	return s
+}
+
+func strconvUnquote(s string) (string, error) { return strconv.Unquote(s) }
